@@ -46,6 +46,7 @@ type Harness struct {
 	Unwind   int               `json:"unwind"`
 	Cuts     []string          `json:"cuts"`
 	Redirect map[string]string `json:"redirect"`
+	RedirectFaithful bool      `json:"redirect_faithful,omitempty"` // the models are meant to be observationally equal to the real functions: native validation compares strictly
 	MaxPaths int               `json:"max_paths"`
 	Bounds   string            `json:"bounds"`
 	Outside  string            `json:"outside"`
